@@ -363,10 +363,11 @@ func c20Expect(log *c20Log, want []c20Snap, what string) {
 
 func c20Async(c *Ctx) {
 	p := 2
-	if c.Thorough() {
-		p = 3
-	}
 	plens := []int{0, 1, 3}
+	if c.Thorough() {
+		p = 6
+		plens = []int{0, 1, 3, 8}
+	}
 	c.Bound("async.schedules", fmt.Sprintf("all interleavings of the caller task and the ServeAsync handler tasks with <= %d preemptions", p))
 	c.Bound("async.direct", "ServeAsync{Handler}: caller serves a message, checks it, overwrites its payload bytes in place and changes Topic/QoS/Retain/Dup/ID, serves the reused message as a second message, overwrites again; handler mutation in 8 kinds x payload length in {0,1,3}")
 	c.Bound("async.mux", "ServeMux with two ServeAsync handlers (filters '#', 'a/#') with mutation kinds (k, k+3 mod 8) [thorough: all 64 pairs], same caller behaviour with one message then reuse")
